@@ -438,7 +438,7 @@ FAMILIES = dict(aliasedModuleAttrStore=fam_alias, exceptNameLoopCarried=fam_b5, 
 class C05(Prop):
     id = "C05"
     driver = "C05"
-    lean_modules = ["Pfb.C05.Props", "Pfb.PyCore.Json", "Pfb.PyCore.Unused", "Pfb.C05.PropsG", "Pfb.C05.PropsH", "Pfb.C05.PropsI"]
+    lean_modules = ["Pfb.C05.Props", "Pfb.PyCore.Json", "Pfb.PyCore.Unused", "Pfb.C05.PropsG", "Pfb.C05.PropsH", "Pfb.C05.PropsI", "Pfb.C05.PropsJ"]
     theorems = [
         "Pfb.C05.C05_sound_fragB",
         "Pfb.C05.C05_precise_fragB",
@@ -472,6 +472,8 @@ class C05(Prop):
         "Pfb.C05.C05_sound_fragI", "Pfb.C05.C05_precise_fragI", "Pfb.C05.fragB_sub_fragI",
         "Pfb.C05.witness_class_local", "Pfb.C05.witness_class_lookup", "Pfb.C05.witness_self_body",
         "Pfb.C05.witness_self_before", "Pfb.C05.witness_method", "Pfb.C05.witness_method_inline",
+        "Pfb.C05.C05_sound_fragJ", "Pfb.C05.C05_precise_fragJ", "Pfb.C05.C05_method_reads_fragJ", "Pfb.C05.fragI_sub_fragJ",
+        "Pfb.C05.witness_method_J", "Pfb.C05.witness_method_late_global", "Pfb.C05.witness_dunder_class",
     ]
     anchors = [
         ("lib/python/pyflyby/_autoimp.py", "ScopeStack"),
